@@ -379,7 +379,9 @@ def _norm_index(i, n, clamp=False):
 
 
 class SplitVal(SVal):
-    """s.split(sep): parts 0..2 and the last part are available, len() is exact up to 3 (">3" is some larger number)."""
+    """s.split(sep): parts 0..2 and the last part are available, len() is exact up to 3 (">3" is some larger number).
+    As a list it supports what path code does with it: replace the last part, append parts, pop the last part once,
+    compare with a concrete list, and be joined again by the same separator."""
 
     def __init__(self, s, sep):
         self.s, self.sep = s, sep
@@ -388,15 +390,34 @@ class SplitVal(SVal):
         self.i2 = z3.IndexOf(s, sep, self.i1 + L)
         self.i3 = z3.IndexOf(s, sep, self.i2 + L)
         self.L = L
+        self._last = None  # the original last part (fresh constant, characterised once)
+        self.last_new = None  # value assigned to [-1]
+        self.extra = []  # appended parts
+        self.popped = False
+
+    def _orig_last(self, cx):
+        if self._last is None:
+            # the last part p: a suffix without the separator that is the whole string or preceded by the separator
+            # (unique for a non-empty separator; stated without seq.last_indexof, which only z3 knows)
+            s, sep, L, n = self.s, self.sep, self.L, z3.Length(self.s)
+            p = z3.String(fresh_name("last_part"))
+            lp = z3.Length(p)
+            cx.assume(z3.And(z3.SuffixOf(p, s), z3.Not(z3.Contains(p, sep)), z3.Or(lp == n, z3.And(n - lp - L >= 0, z3.SubString(s, n - lp - L, L) == sep))))
+            self._last = p
+        return self._last
+
+    def _plain(self, what):
+        if self.popped or self.extra:
+            raise Unsupported(f"{what} of a split list after pop()/append()")
 
     def meth_pop(self, cx, *idx):
-        """segs.pop(): the last part. The list is not modelled as mutable: it must not be used afterwards."""
+        """segs.pop(): the last part; afterwards the list can only be joined."""
         if idx:
             raise Unsupported("split(...).pop(i)")
-        if getattr(self, "consumed", False):
-            raise Unsupported("a split list used after pop()")
+        self._plain("pop()")
         v = self.py_getitem(cx, -1)
-        self.consumed = True
+        cx.decide_or_fail(z3.BoolVal(True), "IndexError", "")  # a split list is never empty
+        self.popped = True
         h = cx.ghost.get("hint_last_part")
         if h is not None:  # an intermediate lemma of the spec about this value: proved here, then used
             fact = h(v.t)
@@ -404,20 +425,65 @@ class SplitVal(SVal):
             cx.assume(fact)
         return v
 
+    def meth_append(self, cx, v):
+        if self.popped:
+            raise Unsupported("append after pop() on a split list")
+        self.extra.append(term(v))
+
+    def py_setitem(self, cx, idx, v):
+        if idx != -1:
+            raise Unsupported("assignment to another part of a split list than the last")
+        self._plain("item assignment")
+        self._orig_last(cx)
+        self.last_new = term(v)
+
+    def py_eq(self, cx, other):
+        """segs == [..concrete parts..]: the string is exactly those parts joined (parts without the separator)"""
+        if isinstance(other, SplitVal):
+            raise Unsupported("comparison of two split lists")
+        if not isinstance(other, (list, tuple)) or not all(isinstance(x, str) for x in other):
+            raise Unsupported("comparison of a split list with a symbolic list")
+        self._plain("comparison")
+        if self.last_new is not None:
+            raise Unsupported("comparison of a split list after item assignment")
+        sepv = z3.simplify(self.sep)
+        if not z3.is_string_value(sepv) or any(sepv.as_string() in x for x in other) or not other:
+            return False if not other else z3.BoolVal(False)
+        return self.s == z3.StringVal(sepv.as_string().join(other))
+
+    def py_joined_by(self, cx, sep):
+        sv = z3.simplify(self.sep)
+        if not (isinstance(sep, str) and z3.is_string_value(sv) and sv.as_string() == sep):
+            raise Unsupported("join of a split list by another separator")
+        s, L, n = self.s, self.L, z3.Length(self.s)
+        if self.last_new is None and not self.extra and not self.popped:
+            return SStr(s)
+        p = self._orig_last(cx)
+        head = z3.SubString(s, 0, n - z3.Length(p))  # everything before the last part (ends with the separator, or is empty)
+        if self.popped:
+            return SStr(z3.If(z3.Length(head) == 0, z3.StringVal(""), z3.SubString(head, 0, z3.Length(head) - L)))
+        parts = [head, self.last_new if self.last_new is not None else p]
+        for x in self.extra:
+            parts += [self.sep, x]
+        return SStr(z3.Concat(*parts))
+
     def py_len(self, cx):
-        if getattr(self, "consumed", False):
-            raise Unsupported("a split list used after pop()")
+        self._plain("len()")
         more = z3.Int(fresh_name("split_more"))
         cx.assume(more >= 4)
         return SInt(z3.If(self.i1 < 0, 1, z3.If(self.i2 < 0, 2, z3.If(self.i3 < 0, 3, more))))
 
     def py_getitem(self, cx, idx):
-        if getattr(self, "consumed", False):
-            raise Unsupported("a split list used after pop()")
+        self._plain("subscription")
         s, sep, L = self.s, self.sep, self.L
         n = z3.Length(s)
+        if idx == -1:
+            return SStr(self.last_new if self.last_new is not None else self._orig_last(cx))
+        if self.last_new is not None and idx != 0:
+            raise Unsupported("middle parts of a split list after item assignment")
         if idx == 0:
-            return SStr(z3.If(self.i1 < 0, s, z3.SubString(s, 0, self.i1)))
+            whole = self.last_new if self.last_new is not None else s  # a single part is also the last one
+            return SStr(z3.If(self.i1 < 0, whole, z3.SubString(s, 0, self.i1)))
         if idx == 1:
             cx.decide_or_fail(self.i1 >= 0, "IndexError", "list index out of range")
             st = self.i1 + L
@@ -426,13 +492,6 @@ class SplitVal(SVal):
             cx.decide_or_fail(z3.And(self.i1 >= 0, self.i2 >= 0), "IndexError", "list index out of range")
             st = self.i2 + L
             return SStr(z3.If(self.i3 < 0, z3.SubString(s, st, n - st), z3.SubString(s, st, self.i3 - st)))
-        if idx == -1:
-            # the last part p: a suffix without the separator that is the whole string or preceded by the separator
-            # (unique for a non-empty separator; stated without seq.last_indexof, which only z3 knows)
-            p = z3.String(fresh_name("last_part"))
-            lp = z3.Length(p)
-            cx.assume(z3.And(z3.SuffixOf(p, s), z3.Not(z3.Contains(p, sep)), z3.Or(lp == n, z3.And(n - lp - L >= 0, z3.SubString(s, n - lp - L, L) == sep))))
-            return SStr(p)
         raise Unsupported("str.split(...)[i] for i > 2")
 
 
